@@ -60,7 +60,10 @@ def rep (c : Cls) (k : Bool → Str → Bool) : Nat → Option Nat → Bool → 
   | mn, _, a, [] => mn == 0 && k a []
   | mn, mx, a, x :: r =>
       (mn == 0 && k a (x :: r)) ||
-      (mx != some 0 && inCls c x && rep c k (mn - 1) (mx.map (· - 1)) false r)
+      (match mx with
+       | some 0 => false
+       | some (m + 1) => inCls c x && rep c k (mn - 1) (some m) false r
+       | none => inCls c x && rep c k (mn - 1) none false r)
 
 def matchAtoms : List Atom → (Bool → Str → Bool) → Bool → Str → Bool
   | [], k, a, s => k a s
